@@ -61,6 +61,22 @@ def run(chk):
     res, lines = drive(chk, gets=False, walks=(60 if thorough else 6), walklen=(1500 if thorough else 600))
     if res.get("panic"):
         chk.violation("cache-panic", res["panic"], dict(kind="cache-panic", detail=res["panic"]))
+    # the users of the cache (routing, scans in both directions, re-establishment, splits / merges / moves): after each
+    # step the client's cache holds regions exactly as the cluster defined them, none intersecting
+    wd2 = vlib.scratch("verif-c08c-")
+    t2 = vlib.go_test("", "^TestVerifC08Client$", env=dict(VERIF_OUT=wd2, VERIF_SEED=str(chk.seed)), timeout=900, race=True)
+    rf2 = os.path.join(wd2, "c08c_result.json")
+    if not os.path.exists(rf2) or t2["rc"] != 0:
+        v = vlib.classify_panic(t2["out"]) or vlib.classify_race(t2["out"])
+        if v:
+            chk.violation(v["sig"], v["desc"], dict(kind="panic"))
+            return
+        raise vlib.MachineryError("C08 client-level driver failed:\n" + t2["out"][-3000:])
+    res2 = json.load(open(rf2))
+    for v in res2["violations"] or []:
+        if v["sig"].startswith("cached-"):
+            chk.violation(v["sig"], v["desc"], dict(kind="c08-client", detail=v))
+    chk.cov["client_level_cache_inspections"] = res2["scenarios"]
     validated, nchunks = validate(chk, lines, lambda ev, inv: True)
     chk.cov["traces_validated_against_impl"] = nchunks
     chk.cov["events_validated"] = validated
